@@ -300,3 +300,32 @@ def write_evidence(pid, tier, level, coverage, wall, violations, assumptions):
     with open(os.path.join(d, pid + ".json"), "w") as f:
         json.dump(ev, f, indent=1)
     return ev
+
+
+# ---------------------------------------------------------------- behaviours out of TLC
+
+def tlc_simulate(spec, cfg, num, depth, workers=8, timeout=900, var="outj"):
+    """Run `tlc -simulate file=...` and return the behaviours as lists of decoded JSON observations
+    (the spec carries each step's observation as a JSON string in variable `var`)."""
+    d = stage_spec(spec, cfg)
+    os.makedirs(os.path.join(d, "beh"))
+    per = max(1, num // workers)
+    r = run_tlc(spec, cfg, workers=workers, timeout=timeout, workdir=d,
+                extra=["-simulate", "file=beh/b,num=%d" % per, "-depth", str(depth), "-seed", str(seed())])
+    if "Error:" in r["out"] and "Invariant" in r["out"]:
+        raise Inconclusive("simulation of %s violates an invariant of the specification:\n%s" % (spec, r["out"][-3000:]))
+    behs = []
+    pat = re.compile(r'/\\ ' + var + r' = ("(?:[^"\\]|\\.)*")')
+    for fn in sorted(os.listdir(os.path.join(d, "beh"))):
+        txt = open(os.path.join(d, "beh", fn)).read()
+        evs = []
+        for m in pat.finditer(txt):
+            s = json.loads(m.group(1))
+            if s:
+                evs.append(json.loads(s))
+        if evs:
+            behs.append(evs)
+    m = re.search(r"(\d+) states checked", r["out"])
+    r["generated"] = int(m.group(1)) if m else 0
+    r["distinct"] = 0
+    return behs, r
